@@ -5,6 +5,24 @@ ROOT = os.path.dirname(os.path.dirname(os.path.abspath(__file__)))
 props = [json.loads(l) for l in open(os.path.join(ROOT, "properties.jsonl"))]
 
 CHECKS = {
+ "C13": dict(
+   category="proof",
+   text="Coq: the six single-draw samplers consume exactly one word and their transform is the documented quantile (C01 theorems, re-stated); the Kolmogorov distance of the empirical measure of N outputs from a monotone CDF is bounded by the finite step formula (ks_step_formula, with ties), which is attained (ks_sup_exact), and is bounded by 1/N + e + delta*M from pointwise accuracy (ks_from_pointwise). Decision on the real crate: ALL 2^24 first-word patterns per (family, parameter point) enumerated: finite, in support, monotone, one word; pointwise accuracy against the Coq model enclosure at stratified draws (both ends dense).",
+   note="The enumeration of the 2^24 outputs is exhaustive; the numerical Kolmogorov bound derived in the quick tier is sound but coarser than the 2^-24-level constant (gap between stratified draws), stated as such. Known finding F4/F11 (draw 1.0) listed.",
+   technique="Coq proof (KS step formula, pointwise-to-KS bound, one-word theorems) + exhaustive enumeration of all 2^24 draws on the real code",
+   design="DESIGN.md §6 C13"),
+ "C14": dict(
+   category="proof",
+   text="Coq theorems (closed under the global context) for every program of the type sampler: determinism, sampling leaves the value unchanged, clones and rebuilds give the same sequence, interleaving independence over several objects and streams, sample_iter = repeated sample, stream position. The tie to the code is (a) purity facts regenerated from the source on every run and re-proved (all sampling methods take &self, forbid(unsafe_code), no interior-mutability/static-mut token) and (b) differential histories on the real crate run seven ways (twice, fresh objects, expanded sample_iter, projected per stream), incl. long runs.",
+   note="The theorem carries least and the tie most for this property (as DESIGN.md says): Rust's aliasing guarantee for safe code is trusted; the token list is a syntactic check.",
+   technique="Coq proof over an abstract sampler type + regenerated syntactic purity facts + differential history testing",
+   design="DESIGN.md §6 C14"),
+ "C15": dict(
+   category="proof",
+   text="Coq (closed under the global context): for every well-formed serde type description and every well-typed value with finite floats, decode(encode v) = Some v, encode is injective; the descriptions of all serde-deriving types are regenerated from the source on every run, proved well formed, and any serde attribute outside the modelled universe fails the obligation. Every serde-enabled type and internal variant is round-tripped through serde_json on the real crate (PartialEq, 100 identical samples) and its JSON tree must decode and re-encode identically at the regenerated description.",
+   note="Trusted: that the derive macro implements the conventions of Model/Serde.v (checked on every type/variant, not proved); serde_json float I/O (float_roundtrip feature).",
+   technique="Coq proof (round-trip theorem over a type-description universe) + regenerated descriptions + JSON tree correspondence",
+   design="DESIGN.md §6 C15"),
  "C03": dict(
    category="proof",
    text="Coq theorems for the integer-exact part (weighted alias/tree indices always in range with non-zero weight, no panic) and, on the ideal real-number sampler models, support theorems (Proofs/Support.v, as far as listed in evidence); the IEEE-level part of the property is decided by the direct oracle on the real code: support predicate + catch_unwind over the single-word-adversarial lattice (about 200 boundary words x positions) x parameter points of envelope E incl. integer extremes, seeded random streams, and the exhaustive sweep of all 2^24 high-bit patterns of one word for every f32 sampler, in debug and release builds. Known findings (Frechet, Gumbel, Exp1 tail, Zipf) are matched by class.",
